@@ -375,3 +375,21 @@ def oriented(i: ast.If, want: str):
     if t in cands:
         return i.orelse, i.body
     return None
+
+
+def bind_args(call: ast.Call, fn: ast.FunctionDef, skip_self: bool = False) -> dict[str, ast.AST]:
+    """parameter name -> argument expression for a call of `fn` (positional and keyword forms alike);
+    parameters left to their default map to the default expression"""
+    params = [a.arg for a in fn.args.args]
+    if skip_self and params and params[0] in ("self", "cls"):
+        params = params[1:]
+    defaults = fn.args.defaults
+    out: dict[str, ast.AST] = {}
+    for p, d in zip(params[len(params) - len(defaults):], defaults):
+        out[p] = d
+    for p, a in zip(params, call.args):
+        out[p] = a
+    for k in call.keywords:
+        if k.arg:
+            out[k.arg] = k.value
+    return out
